@@ -18,6 +18,6 @@ for name in sorted(os.listdir(os.path.join(V, "seeded"))):
     rows.append("| %s | %s | %s | %s | %s |" % (name, m["property"], clean(m.get("summary", ""))[:230], clean(m.get("needs", ""))[:230],
                                                "; ".join(det) if det else "**missed**" if r else "not run"))
 s = open(os.path.join(V, "DESIGN.md")).read()
-s = re.sub(r"<!-- seeded-begin -->.*?<!-- seeded-end -->", "<!-- seeded-begin -->\n" + "\n".join(rows) + "\n<!-- seeded-end -->", s, flags=re.S)
+s = re.sub(r"<!-- seeded-begin -->.*?<!-- seeded-end -->", lambda _m: "<!-- seeded-begin -->\n" + "\n".join(rows) + "\n<!-- seeded-end -->", s, flags=re.S)
 open(os.path.join(V, "DESIGN.md"), "w").write(s)
 print("\n".join(rows))
